@@ -67,6 +67,22 @@ def batches_through_gate(nb=2):
                         {'k': 'sink', 'name': 'snk', 'up': ['p1'], 'cycle': 'cs'}]}
 
 
+def batches_into_batcher(sizes=(3, 3), out=2):
+    """Source (batches of 3) -> PartBatcher(2) -> slow processor -> Sink: left-over parts stay in the batcher."""
+    return {'devices': [{'k': 'source', 'name': 'src', 'cycle': 'c0', 'parts': len(sizes), 'batches': list(sizes)},
+                        {'k': 'batcher', 'name': 'bat', 'up': ['src'], 'size': out},
+                        {'k': 'proc', 'name': 'p1', 'up': ['bat'], 'cycle': 'c1'},
+                        {'k': 'sink', 'name': 'snk', 'up': ['p1'], 'cycle': 'cs'}]}
+
+
+def batch_backlog_in_buffer(cap=5, sizes=(2, 2, 2)):
+    """Source (batches) -> finite Buffer -> slow processor -> Sink: batches pile up in the buffer."""
+    return {'devices': [{'k': 'source', 'name': 'src', 'cycle': 'c0', 'parts': len(sizes), 'batches': list(sizes)},
+                        {'k': 'buffer', 'name': 'buf', 'up': ['src'], 'delay': 0, 'cap': cap},
+                        {'k': 'proc', 'name': 'p1', 'up': ['buf'], 'cycle': 'c1'},
+                        {'k': 'sink', 'name': 'snk', 'up': ['p1'], 'cycle': 'cs'}]}
+
+
 def buffer_into_batcher(size, nb=2):
     """Source (batches) -> Buffer -> PartBatcher -> Sink: a batch leaving the buffer is unpacked in place downstream."""
     return {'devices': [{'k': 'source', 'name': 'src', 'cycle': 'c0', 'parts': nb, 'batches': ['b0', 'b1'][:nb]},
@@ -99,6 +115,12 @@ def _subs(tier, prop):
             {'k': 'restore', 'dev': 'p1', 't': 't2'}]), mons, zero=['cs'], pre=['t0 + d1 <= t2']))
         S.append(mk_sub('F6-fail-restore-n2', _faults_basic(2, [
             {'k': 'fail', 'dev': 'p1', 't': 't0'}, {'k': 'restore', 'dev': 'p1', 't': 't1'}]), mons, zero=['cs'], pre=['t0 <= t1']))
+        # the part budget is cut to zero while a generated part waits in the source, and raised again later
+        for c0 in ([0] if q else [0, 'c0']):
+            sp = with_ops(serial('P', 3), [{'k': 'budget', 'dev': 'src', 't': 't0', 'n': -2}, {'k': 'budget', 'dev': 'src', 't': 't1', 'n': 1}])
+            sp['devices'][0]['cycle'] = c0
+            S.append(mk_sub(f'F8-budget-cut-and-raised-c0={c0}', sp, mons, zero=['cs'], pre=['t0 < t1']))
+        S.append(mk_sub('F7-batches-into-batcher-slow-consumer', batches_into_batcher(), mons, zero=['cs', 'c0']))
     elif prop == 'C03':
         mons = ['wakeup']
         for kinds in (['P', 'B'] if q else ['H', 'P', 'B', 'HP', 'PB', 'BP']):
@@ -127,6 +149,8 @@ def _subs(tier, prop):
         S.append(mk_sub('F6-finished-part-blocked-while-failed', with_ops(BLOCKED_FINISHED, [
             {'k': 'fail', 'dev': 'p1', 't': 't0'}, {'k': 'restore', 'dev': 'p1', 't': 't1'}]), mons,
             pre=['2 * c1 < t0', 't0 < c1 + c2', 'c1 + c2 < t1']))
+        S.append(mk_sub('F7-batches-into-batcher-slow-consumer', batches_into_batcher(), mons, zero=['cs', 'c0']))
+        S.append(mk_sub('F7-batches-into-batcher-n3', batches_into_batcher((3, 3, 3)), mons, zero=['cs']))
         S.append(mk_sub('F4-nested-n2', NESTED, mons, zero=['cs']))
         S.append(mk_sub('F4-reentrant-n2', REENTRANT, mons, zero=['cs', 'c0']))
         S.append(mk_sub('F8-budget-raise', with_ops(serial('H', 1), [
@@ -137,6 +161,8 @@ def _subs(tier, prop):
         S.append(mk_sub('F1-B-n3-cap2', serial('B', 3, caps={1: 2}), mons, zero=['cs'] if q else []))
         S.append(mk_sub('F1-BP-n2-cap2', serial('BP', 2, caps={1: 2}), mons, zero=['cs']))
         S.append(mk_sub('F1-BP-n3-cap2-slow-consumer', serial('BP', 3, caps={1: 2}), mons, zero=['c0', 'cs']))
+        S.append(mk_sub('F7-batch-backlog-cap5', batch_backlog_in_buffer(5, (2, 2, 2)), mons + ['census'], zero=['cs', 'c0']))
+        S.append(mk_sub('F7-batch-backlog-cap4-mixed', batch_backlog_in_buffer(4, (3, None, 2)), mons + ['census'], zero=['cs']))
         for size in (None, 2):
             S.append(mk_sub(f'F7-buffer-into-batcher-size{size}', buffer_into_batcher(size), mons + ['census'],
                             zero=['c0', 'd1'] if q else ['c0'], ranges={'b0': (0, 3), 'b1': (0, 3), 'd1': (0, L.T)}))
@@ -164,6 +190,10 @@ def _subs(tier, prop):
             {'k': 'shutdown', 'dev': 'p1', 't': 't0'}, {'k': 'restore', 'dev': 'p1', 't': 't1'},
             {'k': 'shutdown', 'dev': 'p1', 't': 't2'}, {'k': 'restore', 'dev': 'p1', 't': 't3'}]), mons, zero=['cs', 'c0'],
             pre=['t0 < t1', 't1 < t2', 't2 < t3', 't2 < c1 + (t1 - t0)']))
+        spf = serial('P', 3)
+        spf['devices'][1]['finish_offset'] = 'o2'
+        S.append(mk_sub('F1-P-finish-callback-offset-zero-cycle', spf, mons, zero=['cs', 'c1'], ranges={'o2': (-L.T, L.T)}))
+        S.append(mk_sub('F1-P-finish-callback-offset', spf, mons, zero=['cs', 'c0'], ranges={'o2': (-L.T, L.T)}))
         S.append(mk_sub('F1-P-offset', with_ops(serial('P', 2), [
             {'k': 'offset', 'dev': 'p1', 't': 0, 'amount': 'o1', 'prio': 'high'}]), mons, zero=['cs'],
             ranges={'o1': (-L.T, L.T)}))
@@ -299,6 +329,11 @@ def _subs(tier, prop):
                               {'k': 'sink', 'name': 'snk', 'up': ['op'], 'cycle': 'cs'}]}
         S.append(mk_sub('F4-nested-n2', nested, mons))
         S.append(mk_sub('F7-batches-through-gate-refused', batches_through_gate(2), mons, zero=['cs', 'c0']))
+        fanb = {'devices': [{'k': 'source', 'name': 'src', 'cycle': 'c0', 'parts': 2},
+                            {'k': 'proc', 'name': 'p1', 'up': ['src'], 'cycle': 'c1'}, {'k': 'proc', 'name': 'p2', 'up': ['src'], 'cycle': 'c1'},
+                            {'k': 'sink', 'name': 'snk', 'up': ['p1', 'p2'], 'cycle': 0}], 'idle_longest': ['p1', 'p2'],
+                'ops': [{'k': 'block', 'dev': 'p1', 't': 0, 'prio': 'high'}, {'k': 'unblock', 'dev': 'p1', 't': 't1'}]}
+        S.append(mk_sub('F2-fanout-sibling-blocked-then-unblocked', fanb, mons, pre=['c0 + c1 < t1', 't1 < 2 * c0']))
         S.append(mk_sub('F8-block-path', with_ops(reent, [{'k': 'block', 'dev': 'gp2', 't': 't0'}, {'k': 'unblock', 'dev': 'gp2', 't': 't1'}]),
                         mons, zero=['cs', 'c0'], pre=['t0 <= t1']))
         S.append(mk_sub('F8-block-gate', with_ops(gates, [{'k': 'block', 'dev': 'ge', 't': 't0'}, {'k': 'unblock', 'dev': 'ge', 't': 't1'}]),
@@ -370,7 +405,7 @@ REQUIRED = {
     'C03': ['blocked_part_genuinely_blocked'],
     'C05': ['buffer_released_part', 'buffer_full', 'buffer_two_waiting', 'buffer_released_exactly_at_delay'],
     'C06': ['part_finished_on_time', 'processing_interrupted_by_maintenance', 'processing_resumed', 'failure_ended_processing',
-            'offset_floored_at_zero'],
+            'offset_floored_at_zero', 'offset_set_from_finish_callback'],
     'C04': ['recurrence_matched', 'blocked_by_downstream'],
     'C11': ['processing_with_resources', 'resources_kept_through_maintenance', 'released_on_failure', 'idle_processor_released'],
     'C15': ['level_recorded', 'failure_recorded', 'produced_recorded', 'supplied_recorded', 'resource_recorded', 'work_order_recorded',
